@@ -49,7 +49,7 @@ def same(a, b, rel=REL, abs_=0.0):
 
 def _frame_cmd(rec, fr):
     u = rec["units"]
-    parts = ["frame", str(fr["step"]), dec(fr["step"] * 2, 3), fr["bc"]]
+    parts = ["frame", str(fr["step"]), dec(fr.get("time", 0), 3), fr["bc"]]
     for r in range(3):
         for c in range(3):
             parts.append(dec(fr["box"][r][c], u["ebox"]))
@@ -76,15 +76,17 @@ def _history_cmds(rec, path):
     for op in rec["h"]:
         a = op["a"]
         if a == "wopen":
-            cmds.append("wopen %s %d" % (path, 1 if op["app"] else 0))
+            cmds.append("wopen %s %d %d" % (path, 1 if op["app"] else 0, 1 if op.get("reuse") else 0))
         elif a == "wwrite":
             cmds.append(_frame_cmd(rec, op["fr"]))
+            if rec["fmt"] == "pdbx":
+                cmds.append("wbox")       # CRYST1 record through PDBWriter::WriteBox
             cmds.append("wwrite")
         elif a == "wclose":
             cmds.append("wclose")
         elif a == "ropen":
             cmds.append("rtop %d" % op["rn"])
-            cmds.append("ropen " + path)
+            cmds.append("ropen %s %d" % (path, 1 if op.get("reuse") else 0))
         elif a == "rfirst":
             cmds.append("rfirst")
         elif a == "rnext":
@@ -118,6 +120,8 @@ def _cmp_frame(fmt, exp, units, obs):
         return bad
     if exp["step"] >= 0 and obs["step"] != exp["step"]:
         bad.append(("step", "step %s expected %s" % (obs["step"], exp["step"])))
+    if exp.get("time", -1) >= 0 and not same(obs["time"], val(exp["time"], 3), 1e-12):
+        bad.append(("time", "time %r expected %r" % (obs["time"], val(exp["time"], 3))))
     if exp["boxmode"] != "none":
         ob = obs["box"]
         for r in range(3):
@@ -221,6 +225,8 @@ def _vacuity(ctx, mod, recs):
             seen[f].add("multi")
     for f, s in seen.items():
         need = {"read", "first-mismatch", "eof-twice", "tric", "hv", "nohv", "hf", "nohf"}
+        if f == "pdbx":
+            need.discard("tric")
         if f != "dlpc":
             need |= {"next-mismatch", "multi"}
         if f in ("gro", "xyz", "pdb", "dump"):
@@ -235,7 +241,7 @@ def replay_histories(ctx, exe, recs, sdir, tag, checked=False):
     items = []
     meta = []
     for i, rec in enumerate(recs):
-        path = os.path.join(sdir, "%s%d.%s" % (tag, i, rec["fmt"]))
+        path = os.path.join(sdir, "%s%d.%s" % (tag, i, {"pdbx": "pdb"}.get(rec["fmt"], rec["fmt"])))
         cmds, where = _history_cmds(rec, path)
         items.append((i, cmds))
         meta.append((path, where))
@@ -255,9 +261,17 @@ def replay_histories(ctx, exe, recs, sdir, tag, checked=False):
                                                     crashes[i][-900:]), rec)
             continue
         out = results[i]
+        fmt0 = fmt
+        wre = False
         for j, op in enumerate(rec["h"]):
             obs = _res(out[where[j]])
             a = op["a"]
+            # calls made on an object that already served an earlier session get their own key class
+            if a == "wopen":
+                wre = bool(op.get("reuse"))
+                fmt = fmt0 + (":reused-object" if wre else "")
+            elif a == "ropen":
+                fmt = fmt0 + (":reused-object" if (op.get("reuse") or wre) else "")
             if obs is None:
                 raise vlib.InfraError("no result line for %s" % items[i][1][where[j]])
             if "driver_error" in obs:
@@ -348,9 +362,31 @@ def replay_tables(ctx, exe, recs, sdir):
     items = []
     for i, r in enumerate(recs):
         k = r["kind"]
-        path = os.path.join(sdir, "v%d.%s" % (i, {"table": "tab", "matrix": "gmc", "ds": "imc", "index": "idx"}[k]))
+        path = os.path.join(sdir, "v%d.%s" % (i, {"table": "tab", "matrix": "gmc", "ds": "imc", "index": "idx", "tabletext": "txt"}[k]))
         inp = r["inp"]
-        if k == "table":
+        if k == "tabletext":
+            # the harness is the writer: a hand-written table file with the decorations chosen by TLC
+            lines = []
+            for ln in inp:
+                t = ln["t"]
+                if t == "comment":
+                    lines.append("# written by hand, 2 columns")
+                elif t == "xmgrace":
+                    lines.append('@    title "g(r)"')
+                elif t == "xmgrace2":
+                    lines.append("@TYPE xy")
+                elif t == "blank":
+                    lines.append("")
+                elif t == "size":
+                    lines.append(str(ln["n"]))
+                else:
+                    sep = "\t" if ln["tab"] else "  "
+                    cols = [_num(ln["x"]), _num(ln["y"])] + ([ln["flag"]] if ln["flag"] != "_" else [])
+                    lines.append(sep.join(cols) + (" # note" if ln["trail"] else ""))
+            with open(path, "w") as f:
+                f.write("\n".join(lines) + "\n")
+            cmds = ["tload " + path]
+        elif k == "table":
             parts = ["tsave", path, "1" if inp["hasyerr"] else "0", "hello" if inp["comment"] else "-", str(inp["n"])]
             for j in range(inp["n"]):
                 parts += [_num(inp["x"][j]), _num(inp["y"][j]), _num(inp["yerr"][j]), inp["flags"][j]]
@@ -379,18 +415,22 @@ def replay_tables(ctx, exe, recs, sdir):
         k = r["kind"]
         exp = r["exp"]
         ctx.nontriv((k, str(r["inp"])[:200]))
-        name = {"table": "Table", "matrix": "imcio:matrix", "ds": "imcio:dS", "index": "imcio:index"}[k]
+        name = {"table": "Table", "matrix": "imcio:matrix", "ds": "imcio:dS", "index": "imcio:index",
+                "tabletext": "Table:text"}[k]
         if i in crashes:
             ctx.violation(name + ":crash", "driver died: " + crashes[i], r)
             continue
-        w, rd = _res(results[i][0]), _res(results[i][1])
+        if k == "tabletext":
+            w, rd = {"ok": True}, _res(results[i][0])
+        else:
+            w, rd = _res(results[i][0]), _res(results[i][1])
         if "exc" in w:
             ctx.violation(name + ":write:exception", "writing threw: " + w["exc"], r)
             continue
         if "exc" in rd:
             ctx.violation(name + ":read:exception", "reading back threw: " + rd["exc"], r)
             continue
-        if k in ("table", "ds"):
+        if k in ("table", "ds", "tabletext"):
             if rd["n"] != exp["n"]:
                 ctx.violation(name + ":rows", "%d rows read, %d written" % (rd["n"], exp["n"]), r)
                 continue
@@ -398,11 +438,11 @@ def replay_tables(ctx, exe, recs, sdir):
                 for j in range(exp["n"]):
                     if not _tsame(rd[col][j], _numval(exp[col][j])):
                         ctx.violation(name + ":" + col, "%s[%d] = %r expected %r" % (col, j, rd[col][j], _numval(exp[col][j])), r)
-            if k == "table":
+            if k in ("table", "tabletext"):
                 for j in range(exp["n"]):
                     if exp["flags"][j] != "*" and rd["flags"][j] != exp["flags"][j]:
                         ctx.violation(name + ":flags", "flag[%d] = %r expected %r" % (j, rd["flags"][j], exp["flags"][j]), r)
-                if exp["hasyerr"] and exp["n"] > 0:
+                if exp.get("hasyerr") and exp["n"] > 0:
                     if len(rd["yerr"]) != exp["n"]:
                         ctx.violation("Table:yerr:lost-on-load",
                                       "table saved with an error column (x y yerr flag); Load() returns %d yerr values, "
@@ -492,6 +532,130 @@ def replay_xml(ctx, exe, recs, sdir):
         eb = sorted((b["group"], b["mol"], tuple(b["beads"])) for b in exp["bonded"])
         if gb != eb:
             ctx.violation("xml:bonded", "bonded terms %s expected %s" % (gb, eb), r)
+
+
+def replay_xmlbase(ctx, exe, recs, sdir):
+    items = []
+    for i, r in enumerate(recs):
+        inp = r["inp"]
+        gro = os.path.join(sdir, "b%d.gro" % i)
+        with open(gro, "w") as f:
+            f.write("base\n%5d\n" % len(inp["names"]))
+            for j, nm in enumerate(inp["names"]):
+                f.write("%5d%-5s%5s%5d%8.3f%8.3f%8.3f\n" % (j // 2 + 1, "RES", nm, j + 1, 0.1 * j, 0.2 * j, 0.3 * j))
+            f.write("   3.00000   3.00000   3.00000\n")
+        x = ['<topology base="%s">' % gro, " <molecules>", "  <clear/>"]
+        for d in inp["defines"]:
+            x.append('  <define name="%s" first="%d" nbeads="%d" nmols="%d"/>' % (d["name"], d["first"], d["nbeads"], d["nmols"]))
+        if inp["rename"]:
+            x.append('  <rename name="RN" range="%d:%d"/>' % tuple(inp["rename"]))
+        x.append(" </molecules>")
+        if inp["typerename"] or inp["mass"] != "none":
+            x.append(" <beadtypes>")
+            if inp["typerename"]:
+                x.append('  <rename name="O" newname="OX"/>')
+            if inp["mass"] != "none":
+                x.append('  <mass name="%s" value="14.007"/>' % inp["mass"])
+            x.append(" </beadtypes>")
+        x.append("</topology>")
+        path = os.path.join(sdir, "b%d.xml" % i)
+        with open(path, "w") as f:
+            f.write("\n".join(x) + "\n")
+        items.append((i, ["readtop " + path]))
+    results, crashes = vlib.run_items(exe, items)
+    for i, r in enumerate(recs):
+        ctx.count()
+        ctx.nontriv(("xmlbase", str(r["inp"])))
+        if i in crashes:
+            ctx.violation("xmlbase:crash", "driver died: " + crashes[i], r)
+            continue
+        obs = _res(results[i][0])
+        exp = r["exp"]
+        if "exc" in obs:
+            ctx.violation("xmlbase:exception", "XMLTopologyReader threw: " + obs["exc"], r)
+            continue
+        if obs["n"] != len(exp["beads"]):
+            ctx.violation("xmlbase:beadcount", "%d beads expected %d" % (obs["n"], len(exp["beads"])), r)
+            continue
+        for b, e in zip(obs["beads"], exp["beads"]):
+            if b["name"] != e["name"]:
+                ctx.violation("xmlbase:names", "bead %d name %s expected %s" % (e["id"], b["name"], e["name"]), r)
+            if b["type"] != e["type"]:
+                ctx.violation("xmlbase:beadtypes:rename", "bead %d type %s expected %s" % (e["id"], b["type"], e["type"]), r)
+            if not same(b["mass"], val(e["mass"], 3), 1e-12):
+                ctx.violation("xmlbase:beadtypes:mass", "bead %d mass %r expected %r" % (e["id"], b["mass"], val(e["mass"], 3)), r)
+        gm = [(m["name"], m["beads"]) for m in obs["molecules"]]
+        em = [(m["name"], m["beads"]) for m in exp["molecules"]]
+        if [x[1] for x in gm] != [x[1] for x in em]:
+            ctx.violation("xmlbase:define", "molecules %s expected %s" % (gm, em), r)
+        elif gm != em:
+            ctx.violation("xmlbase:rename", "molecule names %s expected %s" % ([x[0] for x in gm], [x[0] for x in em]), r)
+
+
+# ------------------------------------------------------------------------------------------
+# two readers at once (TwoReaders.tla)
+# ------------------------------------------------------------------------------------------
+
+def replay_two(ctx, exe, recs, sdir):
+    items, meta = [], []
+    for i, rec in enumerate(recs):
+        paths = [os.path.join(sdir, "w%d_%d.%s" % (i, s, rec["fmt"])) for s in (1, 2)]
+        cmds = [_top_cmd(rec)]
+        files = rec["h"][0]
+        if files["a"] != "files":
+            raise vlib.InfraError("TwoReaders history without files record")
+        for s in (0, 1):
+            cmds.append("wopen %s 0 0" % paths[s])
+            for fr in files["frames"][s]:
+                cmds += [_frame_cmd(rec, fr), "wwrite"]
+            cmds.append("wclose")
+        cmds += ["rtop %d" % rec["n"], "ropen %s 0" % paths[0], "rtop2 %d" % rec["n"], "ropen2 %s 0" % paths[1]]
+        where = []
+        for op in rec["h"][1:]:
+            cmds.append(op["a"] + ("2" if op["slot"] == 2 else ""))
+            where.append(len(cmds) - 1)
+        cmds += ["rclose", "rclose2"]
+        items.append((i, cmds))
+        meta.append((paths, where))
+    results, crashes = vlib.run_items(exe, items, timeout=3000)
+    switches = 0
+    for i, rec in enumerate(recs):
+        fmt = rec["fmt"]
+        ctx.traces += 1
+        order = [op["slot"] for op in rec["h"][1:]]
+        switches = max(switches, sum(1 for a, b in zip(order, order[1:]) if a != b))
+        ctx.nontriv(("two", fmt, str(order), str([f[0]["bc"] for f in rec["h"][0]["frames"]])))
+        paths, where = meta[i]
+        if i in crashes:
+            ctx.violation("%s:two-readers:crash" % fmt, "driver died: %s" % crashes[i], rec)
+            continue
+        out = results[i]
+        for j, op in enumerate(rec["h"][1:]):
+            obs = _res(out[where[j]])
+            if "exc" in obs:
+                if obs["exc"].startswith("driver:"):
+                    raise vlib.InfraError(obs["exc"])
+                ctx.violation("%s:two-readers:exception" % fmt,
+                              "reader %d, call %d of the interleaving %s threw: %s" % (op["slot"], j + 1, order, obs["exc"]), rec)
+                break
+            if bool(obs["ret"]) != op["ret"]:
+                ctx.violation("%s:two-readers:eof" % fmt, "reader %d returned %s, its own file says %s (interleaving %s)"
+                              % (op["slot"], obs["ret"], op["ret"], order), rec)
+                break
+            if op["ret"]:
+                bad = _cmp_frame(fmt, op["exp"], rec["units"], obs)
+                for w, t in bad[:2]:
+                    ctx.violation("%s:two-readers:%s" % (fmt, w), "reader %d frame %d (interleaving %s): %s"
+                                  % (op["slot"], op["k"], order, t), rec)
+                if bad:
+                    break
+        for pth in paths:
+            try:
+                os.unlink(pth)
+            except OSError:
+                pass
+    if recs and switches < 3:
+        raise vlib.InfraError("TwoReaders: no history alternates between the readers")
 
 
 # ------------------------------------------------------------------------------------------
@@ -598,10 +762,14 @@ def run(ctx):
         if getattr(ctx, "replay", None):
             import json
             obj = json.load(open(ctx.replay))["replay"]
-            if "h" in obj:
+            if "h" in obj and obj["h"] and obj["h"][0].get("a") == "files":
+                replay_two(ctx, exe, [obj], sdir)
+            elif "h" in obj:
                 replay_histories(ctx, exe, [obj], sdir, "r")
             elif obj.get("kind") == "xml":
                 replay_xml(ctx, exe, [obj], sdir)
+            elif obj.get("kind") == "xmlbase":
+                replay_xmlbase(ctx, exe, [obj], sdir)
             elif "mid" in obj:
                 vlib.ensure_build(["csg_map"])
                 chain_conversions(ctx, exe, bindir, [obj], sdir)
@@ -637,6 +805,26 @@ def run(ctx):
         for r in picks:
             ctx.sample({"fmt": r["fmt"], "n": r["n"], "hv": r["hv"], "hf": r["hf"],
                         "calls": [dict((k, v) for k, v in o.items() if k not in ("fr", "exp")) for o in r["h"]]})
+        # the SAME writer / reader object used for a second file session (also after a reported error)
+        res = vlib.tlc("trajio", "MCTrajReuse", cfg="MCTrajReuse.cfg", timeout=1200)
+        vlib.tlc_must_hold(res, "TrajIO with object re-use")
+        ctx.add_tlc("MCTrajReuse", res)
+        reuse = [r for r in res.records if sum(1 for o in r["h"] if o["a"] == "wopen") == 2]
+        n_r = sum(1 for r in reuse if any(o["a"] == "ropen" and o["reuse"] for o in r["h"]))
+        n_e = sum(1 for r in reuse if any(o["a"] == "ropen" and o["reuse"] for o in r["h"]) and
+                  any(o.get("err") for o in r["h"][:[k for k, o in enumerate(r["h"]) if o["a"] == "ropen"][-1]]))
+        n_w = sum(1 for r in reuse if any(o["a"] == "wopen" and o["reuse"] for o in r["h"]))
+        if min(n_r, n_e, n_w) == 0:
+            raise vlib.InfraError("vacuous re-use configuration: reader %d, after error %d, writer %d" % (n_r, n_e, n_w))
+        ctx.extra["reuse_histories"] = {"total": len(reuse), "reader": n_r, "reader_after_error": n_e, "writer": n_w}
+        replay_histories(ctx, exe, reuse, sdir, "u")
+        # two reader objects open at the same time, calls interleaved in every order
+        res = vlib.tlc("trajio", "MCTwoReaders", cfg="MCTwoReaders.cfg", timeout=1200)
+        vlib.tlc_must_hold(res, "TwoReaders independence")
+        ctx.add_tlc("MCTwoReaders", res)
+        if not res.records:
+            raise vlib.InfraError("no two-reader history exported")
+        replay_two(ctx, exe, res.records, sdir)
         # simulated: several file sessions (truncate / append), more frames, scrambled payloads
         nsim = 150 if quick else 3000
         res = vlib.tlc("trajio", "MCTrajSim", cfg="MCTrajSim.cfg", timeout=2400, simulate=nsim, depth=40,
@@ -674,6 +862,9 @@ def run(ctx):
         if len(res.records) != res.distinct:
             raise vlib.InfraError("vector export incomplete: %d of %d" % (len(res.records), res.distinct))
         replay_tables(ctx, exe, res.records, sdir)
+        kinds = set(r["kind"] for r in res.records)
+        if not {"table", "tabletext", "matrix", "ds", "index"} <= kinds:
+            raise vlib.InfraError("table vector kinds missing: %s" % sorted(kinds))
         m = [r for r in res.records if r["kind"] == "matrix" and r["inp"]["rows"] == 3 and r["inp"]["cols"] == 2][:1]
         for r in m:
             ctx.sample({"matrix_vector": r})
@@ -684,6 +875,13 @@ def run(ctx):
         vlib.tlc_must_hold(res, "XmlTop flattening")
         ctx.add_tlc(mod, res)
         replay_xml(ctx, exe, res.records, sdir)
+
+        res = vlib.tlc("trajio", "MCXmlBase", cfg="MCXmlBase.cfg", timeout=1200)
+        vlib.tlc_must_hold(res, "XmlBase")
+        ctx.add_tlc("MCXmlBase", res)
+        if len(res.records) != res.distinct or not res.records:
+            raise vlib.InfraError("xml base vector export incomplete")
+        replay_xmlbase(ctx, exe, res.records, sdir)
 
         # ---- 4. executable-level chains (thorough) --------------------------------------------
         if not quick:
